@@ -4,7 +4,7 @@
 From Coq Require Import String.
 From Coq Require Import List ZArith Strings.Byte Bool Lia Permutation Sorting.Sorted.
 From Verif Require Import Base.Wire Json.Utf8 Json.JsonProofs Num.Amount Num.Codec Num.CodecProofs Defs.DefTypes Rates.Date
-  Fix.DateText Fix.DateTextProofs Marshal.Typed Marshal.Wf.
+  Fix.DateText Fix.DateTextProofs Marshal.Typed Marshal.Wf Marshal.LeafTextProofs.
 Import ListNotations.
 Open Scope Z_scope.
 
@@ -401,11 +401,13 @@ Proof.
     destruct (parse_date s) as [d|] eqn:P; [|discriminate]. inversion H; subst j'.
     destruct (print_parse_date _ _ P) as [Q _]. rewrite Q. cbn [reenc_leaf]. rewrite P, Q. reflexivity.
   - (* LDateTime *) destruct j; try discriminate. cbn [reenc_leaf] in H.
-    destruct (canonical_datetime s) eqn:C; [|discriminate]. inversion H; subst. cbn [reenc_leaf]. now rewrite C.
+    destruct (parse_datetime s) as [c|] eqn:P; [|discriminate]. inversion H; subst. cbn [reenc_leaf].
+    destruct (parse_datetime_canonical _ _ P) as [_ ->]. reflexivity.
   - (* LUUID *) destruct j; try discriminate.
     + inversion H. reflexivity.
     + cbn [reenc_leaf] in H.
-      destruct (canonical_uuid s) eqn:C; [|discriminate]. inversion H; subst. cbn [reenc_leaf]. now rewrite C.
+      destruct (parse_uuid s) as [c|] eqn:P; [|discriminate]. inversion H; subst. cbn [reenc_leaf].
+      destruct (parse_uuid_canonical _ _ P) as [_ ->]. reflexivity.
   - (* LSig *) destruct j; try discriminate. cbn [reenc_leaf] in H.
     destruct (canonical_sig s) eqn:C; [|discriminate]. inversion H; subst. cbn [reenc_leaf]. now rewrite C.
   - (* LBytes *) destruct j; try discriminate.
